@@ -14,5 +14,10 @@ CHECKS = {
   "note": "Trusted: the structural comparer in vlib/checks/c15.py; penalties compared at 2^-20 (stored resolution); 65535-char strings excluded (collide with the None marker by design); read ids and chromosome names ASCII.",
   "technique": "runtime round-trip contracts on the real serialisers + offline comparison of reuse runs (generated-value and stream workloads)",
  },
+ "C06": {
+  "text": "Whole output trees of runs that differ only in --threads (1..16), PYTHONHASHSEED, --high_memory, --keep_tmp, repetition and injected per-task delays are compared byte-wise with a -t 1 / hash-seed-0 reference on rich multi-chromosome worlds (read groups, multi-mappers, shared-exon genes, --count_exons, --check_canonical); the schedule monitor records which worker handled which chromosome and the completion order, and the evidence counts the distinct schedules actually produced. Schedules and seeds are sampled.",
+  "note": "Trusted: byte comparison (header lines with the command line ignored, gz decompressed, aux/ ignored). Schedules are those the process pool produced under seeded delays, not all possible ones.",
+  "technique": "differential runtime monitoring: schedule-perturbed and hash-seed-perturbed executions compared with a reference execution; schedule event log",
+ },
 }
 NOT_APPLICABLE = {}
